@@ -544,7 +544,280 @@ def r7_eval_wrapper_is_private_to_its_evaluation(ctx):
     ctx.ob("C02.R7", inst + " is removed from the module afterwards", COMPILER, getattr(dels[0], "lineno", fn.lineno) if dels else fn.lineno, ok, "" if ok else "the wrapper is not removed (or another name is removed)")
 
 
+def _embed_uses(node, v):
+    """How often `<v>.node` -- the generated expression of a child -- is placed into the output by
+    this expression; inspections (isinstance / comparisons) do not place it, the two arms of a
+    conditional expression are alternatives."""
+    if isinstance(node, ast.IfExp):
+        return _embed_uses(node.test, v) + max(_embed_uses(node.body, v), _embed_uses(node.orelse, v))
+    if isinstance(node, ast.Attribute) and node.attr == "node" and isinstance(node.value, ast.Name) and node.value.id == v:
+        return 1
+    if isinstance(node, ast.Call) and P.un(node.func) in ("isinstance", "type", "len"):
+        return 0
+    if isinstance(node, ast.Compare):
+        return 0
+    return sum(_embed_uses(c, v) for c in ast.iter_child_nodes(node))
+
+
+def _max_embeddings(fn, v):
+    """The largest number of times `<v>.node` is placed into the output along one path through `fn`
+    between two assignments of v (syntax-directed; a use inside a loop of a value generated outside
+    it counts as many).  Returns (count, line)."""
+    worst = [0, fn.lineno]
+
+    def note(c, s):
+        if c > worst[0]:
+            worst[0], worst[1] = c, s.lineno
+
+    def assigns(s):
+        return isinstance(s, (ast.Assign, ast.AnnAssign)) and any(isinstance(t, ast.Name) and t.id == v for t in (s.targets if isinstance(s, ast.Assign) else [s.target]))
+
+    def block(stmts, cnt):
+        for s in stmts:
+            if cnt is None:
+                return None
+            cnt = stmt(s, cnt)
+        return cnt
+
+    def stmt(s, cnt):
+        if isinstance(s, (ast.FunctionDef, ast.AsyncFunctionDef, ast.ClassDef)):
+            return cnt
+        if isinstance(s, ast.If):
+            cnt += _embed_uses(s.test, v)
+            note(cnt, s)
+            outs = [x for x in (block(s.body, cnt), block(s.orelse, cnt)) if x is not None]
+            return max(outs) if outs else None
+        if isinstance(s, (ast.For, ast.While)):
+            cnt += _embed_uses(s.iter if isinstance(s, ast.For) else s.test, v)
+            note(cnt, s)
+            block(s.body, 0)
+            if sum(_embed_uses(x, v) for x in s.body) and not any(assigns(x) for x in ast.walk(s)):
+                note(99, s)
+            block(s.orelse, cnt)
+            return cnt
+        if isinstance(s, ast.With):
+            for it in s.items:
+                cnt += _embed_uses(it.context_expr, v)
+            note(cnt, s)
+            return block(s.body, cnt)
+        if isinstance(s, ast.Try):
+            a = block(s.body, cnt)
+            outs = [] if a is None else [block(s.orelse, a) if s.orelse else a]
+            outs += [block(h.body, cnt) for h in s.handlers]
+            outs = [o for o in outs if o is not None]
+            c = max(outs) if outs else None
+            if s.finalbody:
+                c = block(s.finalbody, c if c is not None else cnt)
+            return c
+        if assigns(s):
+            return 0
+        cnt += _embed_uses(s, v)
+        note(cnt, s)
+        if isinstance(s, (ast.Return, ast.Raise, ast.Continue, ast.Break)):
+            return None
+        return cnt
+
+    block(fn.body, 0)
+    return worst[0], worst[1]
+
+
+@rule("C02.R9", floor=35)
+def r9_generated_child_is_placed_once(ctx):
+    """Generating a child once (R4) is not enough: the generated expression `<child>.node` must also
+    be *placed* into the output at most once on every path through the handler -- placed twice, the
+    child's code is emitted twice and runs twice.  Checked for every local that holds the result of
+    gen_py_ast / a *_to_py_ast helper in every handler of the generator."""
+    tree = _gen(ctx)
+    n = 0
+    for fn in P.all_defs(tree):
+        if P.enclosing_func(fn) is not None:
+            continue
+        vars_ = sorted({a.targets[0].id for a in ast.walk(fn) if isinstance(a, ast.Assign) and isinstance(a.value, ast.Call) and isinstance(a.targets[0], ast.Name)
+                        and (P.un(a.value.func) == "gen_py_ast" or P.un(a.value.func).endswith("_to_py_ast"))})
+        for v in vars_:
+            cnt, line = _max_embeddings(fn, v)
+            n += 1
+            ctx.ob("C02.R9", f"{GEN}::{fn.name}::{v}.node placed at most once per path", GEN, line, cnt <= 1,
+                   "" if cnt <= 1 else f"`{v}.node` is placed into the generated code {'repeatedly (in a loop)' if cnt >= 99 else str(cnt) + ' times'} on one path: the sub-expression it was generated from is evaluated that often",
+                   witness="(let [a (atom 0) r (set! (.-attr obj) (swap! a inc))] [r @a (.-attr obj)]) => [1 2 2]")
+    if n == 0:
+        raise AnalysisError("no generated-child locals found in the generator")
+
+
+# (macro, unquoted text): forms that a template loop re-evaluates on every iteration *by definition*
+_REEVALUATED_BY_DEFINITION = {
+    ("while", "~cond"): "the loop test",
+    ("amap", "~expr"): "the per-element expression",
+    ("areduce", "~expr"): "the per-element expression",
+    ("for", "~seq-body"): "the comprehension body",
+}
+
+
+def _macro_locals_bound_to_names(top):
+    """Macro-time locals that hold a symbol the macro itself made or validated: (gensym ...), or a
+    destructured binding name.  Unquoting them evaluates nothing."""
+    out = set()
+    for f in L.walk(top):
+        if L.head(f) in ("let", "let*", "if-let", "when-let") and len(f.items) > 1 and isinstance(f.items[1], L.Vec):
+            b = f.items[1].items
+            for k, val in zip(b[0::2], b[1::2]):
+                if isinstance(k, L.Sym) and (L.head(val) in ("gensym",) or (L.head(val) in ("with-meta", "vary-meta") and any(L.head(x) == "gensym" for x in L.walk(val)))):
+                    out.add(k.val)
+    return out
+
+
+def _template_paths_count(form, key_of):
+    """Largest number of evaluations of one unquoted expression along an evaluation path of the
+    template `form`: `if` arms are alternatives, everything else is a sequence."""
+    def go(f):
+        if isinstance(f, L.Wrap):
+            if f.tag == "unquote":
+                k = key_of(f)
+                return {k: 1} if k is not None else {}
+            if f.tag in ("quote", "syntax-quote", "var"):
+                return {}
+            return go(f.form)
+        if isinstance(f, L.Coll):
+            items = f.items
+            if isinstance(f, L.List) and items and L.head(f) in ("if", "if-not") and len(items) >= 3:
+                acc = go(items[1])
+                arms = [go(x) for x in items[2:4]]
+                for k in set().union(*arms) if arms else ():
+                    acc[k] = acc.get(k, 0) + max(a.get(k, 0) for a in arms)
+                return acc
+            acc = {}
+            for x in items:
+                for k, c in go(x).items():
+                    acc[k] = acc.get(k, 0) + c
+            return acc
+        return {}
+    return go(form)
+
+
+@rule("C02.R10", floor=40)
+def r10_core_macros_evaluate_their_operands_once(ctx):
+    """A macro of basilisp.core places an operand form into its expansion so that it is evaluated at
+    most once: (a) no operand is unquoted twice on one evaluation path of a template (the arms of
+    an `if` are alternatives), (b) a macro that expands into a call of itself does not both
+    evaluate an operand and hand the same operand form on to the next expansion, unless it has
+    made sure the operand is a symbol, (c) no operand is unquoted inside the body of a `loop` the
+    template sets up, apart from the forms listed as re-evaluated by definition.  Operands used as
+    binding names (they are symbols) and macro-made gensyms are not evaluations."""
+    forms = ctx.lisp(CORE)
+    n = 0
+    for top in forms:
+        if L.head(top) != "defmacro" or len(top.items) < 3 or not isinstance(top.items[1], L.Sym):
+            continue
+        mname = top.items[1].val
+        made = _macro_locals_bound_to_names(top)
+        for ai, (params, body) in enumerate(L.fn_arities(top)):
+            ps = {p.val for p in params.items if isinstance(p, L.Sym) and p.val != "&"}
+            templates = [f for b in body for f in L.walk(b) if isinstance(f, L.Wrap) and f.tag == "syntax-quote"
+                         and not any(isinstance(a, L.Wrap) and a.tag == "syntax-quote" for a in L.ancestors(f))]
+            if not templates:
+                continue
+            # operands that the templates use as names: binding positions, def / fn names, (var x), set!
+            names = set()
+            for t in templates:
+                for f in L.walk(t.form):
+                    if L.head(f) in ("let", "let*", "loop", "loop*", "binding", "with-open", "doseq", "for", "dotimes", "if-let", "when-let", "if-some", "when-some", "letfn") and len(f.items) > 1 and isinstance(f.items[1], L.Vec):
+                        for k in f.items[1].items[0::2]:
+                            for x in L.walk(k):
+                                if isinstance(x, L.Wrap) and x.tag == "unquote":
+                                    names.add(x.form.text())
+                    if L.head(f) in ("def", "defn", "defmacro", "fn", "fn*", "deftype", "deftype*", "defrecord", "declare", "var", "set!", "ns", "in-ns", "defonce", "reify", "import", "quote") and len(f.items) > 1:
+                        x = f.items[1]
+                        if isinstance(x, L.Wrap) and x.tag == "unquote":
+                            names.add(x.form.text())
+                    if isinstance(f, L.Wrap) and f.tag in ("quote", "var") and isinstance(f.form, L.Wrap) and f.form.tag == "unquote":
+                        names.add(f.form.form.text())
+                    if isinstance(f, L.Vec) and L.head(f.parent) in ("fn", "fn*", "defn"):
+                        for x in f.items:
+                            if isinstance(x, L.Wrap) and x.tag == "unquote":
+                                names.add(x.form.text())
+
+            def key_of(u, ps=ps, names=names, made=made):
+                e = u.form
+                txt = e.text()
+                if txt in names:
+                    return None
+                if isinstance(e, L.Sym):
+                    return txt if (e.val in ps and e.val not in made) else None
+                # ~(first xs) / ~(second binding) ...: an operand sub-form taken out of a parameter
+                if isinstance(e, L.List) and L.head(e) in ("first", "second", "last", "nth", "fnext") and any(isinstance(x, L.Sym) and x.val in ps for x in e.items[1:]):
+                    return txt
+                return None
+
+            for ti, t in enumerate(templates):
+                n += 1
+                inst = f"{CORE}::{mname}[arity {ai}]::template {ti}"
+                counts = _template_paths_count(t.form, key_of)
+                dup = sorted(k for k, c in counts.items() if c > 1)
+                ctx.ob("C02.R10", inst + "::no operand unquoted twice on one path", CORE, t.line, not dup,
+                       "" if not dup else f"~{dup[0]} is placed {counts[dup[0]]} times on one evaluation path of the expansion: the operand is evaluated that often",
+                       witness="(some-> (swap! a inc) (* 10)) bumps the atom twice")
+                # (b) recursion
+                rec = [f for f in L.walk(t.form) if isinstance(f, L.List) and f.items and isinstance(f.items[0], L.Sym) and f.items[0].val in (mname, "basilisp.core/" + mname)]
+                fwd = set()
+                for r in rec:
+                    for x in r.items[1:]:
+                        if isinstance(x, L.Wrap) and x.tag == "unquote" and isinstance(x.form, L.Sym) and x.form.val in ps and x.form.val not in made and x.form.text() not in names:
+                            fwd.add(x.form.val)
+                if fwd:
+                    # evaluated at this level too: unquoted elsewhere in the template, or spliced through (list p ...)
+                    evaluated = set()
+                    for f in L.walk(t.form):
+                        if any(f is r or any(a is r for a in L.ancestors(f)) for r in rec):
+                            continue
+                        if isinstance(f, L.Wrap) and f.tag == "unquote":
+                            for x in L.walk(f.form):
+                                if isinstance(x, L.Sym) and x.val in fwd:
+                                    evaluated.add(x.val)
+                    # a guard that made sure they are symbols
+                    def known_symbol(p, t=t):
+                        for a in L.ancestors(t):
+                            if L.head(a) == "if" and len(a.items) >= 4:
+                                test, then, els = a.items[1], a.items[2], a.items[3]
+                                in_then = then is t or any(x is t for x in L.walk(then))
+                                tt = test.text()
+                                pos = f"(symbol? {p})" in tt
+                                neg = tt.startswith("(not ")
+                                if pos and ((in_then and not neg) or (not in_then and neg)):
+                                    return True
+                        return False
+                    bad = sorted(p for p in evaluated if not known_symbol(p))
+                    ctx.ob("C02.R10", inst + "::an operand handed to the next expansion is not also evaluated here", CORE, t.line, not bad,
+                           "" if not bad else f"`{bad[0]}` is evaluated by this expansion and passed on, as a form, to the {mname} it expands into: it is evaluated once per clause tried",
+                           witness="(condp = (swap! a inc) 5 :five 1 :one :other) => :other")
+                # (c) template loops
+                for lp in L.walk(t.form):
+                    if L.head(lp) not in ("loop", "loop*"):
+                        continue
+                    for part in lp.items[2:]:
+                        for x in L.walk(part):
+                            if isinstance(x, L.Wrap) and x.tag == "unquote":
+                                k = key_of(x)
+                                if k is None or (mname, "~" + k) in _REEVALUATED_BY_DEFINITION:
+                                    continue
+                                ctx.ob("C02.R10", inst + f"::~{k} is not re-evaluated by the template's loop", CORE, x.line, False,
+                                       f"~{k} sits inside the body of the loop the expansion sets up: the operand is evaluated on every iteration",
+                                       witness="(dotimes [i (do (swap! calls inc) 2)] ...) evaluates the count three times")
+    if n == 0:
+        raise AnalysisError("no macro templates found in core.lpy")
+
+
 SELFTEST = [
+    {"name": "set! places its value twice in expression position (the repaired defect)", "file": GEN, "expect": "C02.R9",
+     "old": "        assign_ast = [ast.Assign(targets=[target_ast.node], value=val_node)]\n    elif isinstance(target, VarRef):",
+     "new": "        assign_ast = [ast.Assign(targets=[target_ast.node], value=val_ast.node)]\n    elif isinstance(target, VarRef):"},
+    {"name": "some-> evaluates x for the nil test and again for the step (the repaired defect)", "file": CORE, "expect": "C02.R10",
+     "old": "    `(let [x# ~x]\n       (when-not (nil? x#)\n         (let [result# (-> x# ~(first forms))]", "new": "    `(let [x# 1]\n       (when-not (nil? ~x)\n         (let [result# (-> ~x ~(first forms))]"},
+    {"name": "amap evaluates its array twice (the repaired defect)", "file": CORE, "expect": "C02.R10",
+     "old": "         len#   (alength array#)\n         ~ret   (aclone array#)]", "new": "         len#   (alength ~array)\n         ~ret   (aclone ~array)]"},
+    {"name": "condp re-evaluates pred and expr per clause (the repaired defect)", "file": CORE, "expect": "C02.R10",
+     "old": "  (if (not (and (symbol? pred) (symbol? expr)))\n", "new": "  (if false\n"},
+    {"name": "dotimes evaluates its count in the loop test (the repaired defect)", "file": CORE, "expect": "C02.R10",
+     "old": "         (when (< ~nm n#)\n", "new": "         (when (< ~nm ~(second binding))\n"},
     {"name": "eval wrapper under a fixed module-level name", "file": COMPILER, "expect": "C02.R7",
      "old": "        final_wrapped_name = genname(wrapped_fn_name)\n", "new": "        final_wrapped_name = wrapped_fn_name\n"},
     {"name": "twin: eval wrapper name generated once per call", "file": COMPILER, "expect": None,
